@@ -327,7 +327,7 @@ add("C06",
     "the individual, any final vector, TypeError or not): the value returned is the base fitness of exactly the constants held "
     "afterwards, the equation no longer requests optimisation, the method option is restored, the constants are the vector the "
     "optimizer returned; an equation that did not request optimisation is untouched and scipy is not consulted; refitting never "
-    "returns a fitness worse than the first fit (NaN-aware) and the reported fitness belongs to the constants returned. Tie: real "
+    "returns a fitness worse than the first fit (NaN-aware) and the reported fitness belongs to the constants returned. Tie: the two statements of LocalOptFitnessFunction.__call__ and the eval_count/training_data delegation are pinned by a translator (tr_localopt.py -> Gen/LocalOptRules.v) and the model's wrapper is proved to be their interpretation; real "
     "wrapper runs with scipy.optimize wrapped to record the oracle, replayed through the model (compared inside Coq); bit-for-bit "
     "comparison with an independent base-fitness evaluation; scripted fitness sequences for the regressor loop.",
     "Trusted: Coq kernel; scipy as an oracle (it returns a vector of the length it was given); the harness's scipy wrapper. The "
